@@ -126,7 +126,7 @@ def _solve_one(args):
                     s.add(h)
             r2 = s.check()
             res['backend'] = 'z3(qf-part)'
-            res['verdict'] = {z3.sat: 'covered', z3.unsat: 'vacuous'}.get(r2, 'undecided')
+            res['verdict'] = 'covered' if r2 == z3.sat else ('vacuous' if r2 == z3.unsat else 'undecided')
             res['ms'] = int((time.time() - t0) * 1000)
             return res
         if r == z3.unknown:
